@@ -109,8 +109,78 @@ fn entry_from(s: &str) -> Option<Entry> {
     })
 }
 
-pub fn wire_json(entry: Entry, opts: Option<u8>, bytes: &[u8]) -> Value {
+thread_local! {
+    /// (first, previous) wire case executed by this worker: stored with every violation so that a
+    /// result that depends on earlier calls can be replayed and reported as a verdict
+    static WIRE_HISTORY: std::cell::RefCell<(Option<(Entry, Option<u8>, Vec<u8>)>, Option<(Entry, Option<u8>, Vec<u8>)>)> = const { std::cell::RefCell::new((None, None)) };
+    /// the last case that a property marked as having done something beyond decoding (C10: the
+    /// last accepted input, i.e. the last one whose value was re-encoded)
+    static WIRE_MARKED: std::cell::RefCell<Option<(Entry, Option<u8>, Vec<u8>)>> = const { std::cell::RefCell::new(None) };
+}
+
+pub fn mark_wire(entry: Entry, opts: Option<u8>, bytes: &[u8]) {
+    if bytes.len() <= 4096 {
+        WIRE_MARKED.with(|m| *m.borrow_mut() = Some((entry, opts, bytes.to_vec())));
+    }
+}
+
+/// remember the case just executed (called once per case by the wire-based sweeps)
+pub fn remember_wire(entry: Entry, opts: Option<u8>, bytes: &[u8]) {
+    WIRE_HISTORY.with(|h| {
+        let mut h = h.borrow_mut();
+        if h.0.is_none() {
+            h.0 = Some((entry, opts, bytes.to_vec()));
+        }
+        match &mut h.1 {
+            Some(p) => {
+                p.0 = entry;
+                p.1 = opts;
+                p.2.clear();
+                p.2.extend_from_slice(bytes);
+            }
+            None => h.1 = Some((entry, opts, bytes.to_vec())),
+        }
+    });
+}
+
+fn wire_json_plain(entry: Entry, opts: Option<u8>, bytes: &[u8]) -> Value {
     json!({"kind":"wire","entry":entry_str(entry),"opts":opts,"len":bytes.len(),"hex":hex(bytes)})
+}
+
+pub fn wire_json(entry: Entry, opts: Option<u8>, bytes: &[u8]) -> Value {
+    let mut v = wire_json_plain(entry, opts, bytes);
+    WIRE_HISTORY.with(|h| {
+        let h = h.borrow();
+        if let Some(f) = &h.0 {
+            if f.2.len() <= 4096 {
+                v["first_call"] = wire_json_plain(f.0, f.1, &f.2);
+            }
+        }
+        if let Some(p) = &h.1 {
+            if p.2.len() <= 4096 {
+                v["previous_call"] = wire_json_plain(p.0, p.1, &p.2);
+            }
+        }
+    });
+    WIRE_MARKED.with(|m| {
+        if let Some(p) = m.borrow().as_ref() {
+            v["last_marked_call"] = wire_json_plain(p.0, p.1, &p.2);
+        }
+    });
+    v
+}
+
+/// the recorded earlier calls of a replay case, in order
+pub fn wire_history_of(v: &Value) -> Vec<(Entry, Option<u8>, Vec<u8>)> {
+    let mut out = Vec::new();
+    for key in ["first_call", "last_marked_call", "previous_call"] {
+        if let Some(c) = v.get(key) {
+            if let (Some(e), Some(b)) = (c["entry"].as_str().and_then(entry_from), c["hex"].as_str().and_then(unhex)) {
+                out.push((e, c["opts"].as_u64().map(|x| x as u8), b));
+            }
+        }
+    }
+    out
 }
 
 fn first_err_name(e: &[DecodeError]) -> String {
@@ -297,6 +367,7 @@ fn run_wire(ctx: &mut Ctx, which: Which) {
             let (entry, bytes, family) = (wc.entry, wc.bytes, wc.family);
             let desc = || wire_json(entry, opts, bytes);
             ctx.case(&desc, |ctx| check_one(ctx, which, family, entry, opts, bytes));
+            remember_wire(entry, opts, bytes);
         }
     };
     gen::wire(ctx, tier, &mut sink);
@@ -318,7 +389,12 @@ fn replay_wire(ctx: &mut Ctx, v: &Value, which: Which) {
         std::process::exit(2);
     };
     let opts = v["opts"].as_u64().map(|x| x as u8);
-    let desc = || wire_json(entry, opts, &bytes);
+    // earlier calls of the sweep first (state they leave behind is part of what is replayed)
+    for (e, o, b) in wire_history_of(v) {
+        let mut scratch = Ctx::new(&ctx.prop, ctx.tier, 0, 1);
+        check_one(&mut scratch, which, "replay-history", e, o, &b);
+    }
+    let desc = || wire_json_plain(entry, opts, &bytes);
     ctx.case(&desc, |ctx| check_one(ctx, which, "replay", entry, opts, &bytes));
     for (k, n) in &ctx.hist {
         println!("  outcome {k} x{n}");
